@@ -52,6 +52,50 @@ type VerifHooks struct {
 	// Stripe chooses among nfree idle stripes; pick == nfree asks for a new
 	// stripe. lose discards the picked stripe (what a GC does to sync.Pool).
 	Stripe func(nfree int) (pick int, lose bool)
+	// Mutex seam: after a wrapped mutex was acquired; just before it is
+	// released (kind 1: a shard or the expiry index, kind 2: the policy); and
+	// after it was released.
+	MutexLocked    func()
+	MutexUnlocking func(kind int)
+	MutexUnlocked  func()
+}
+
+// Mutex seam. lockedMap, expirationMap and defaultPolicy embed these instead
+// of the sync types; they are the sync types plus three notifications, so that
+// a simulator knows when the calling goroutine holds no lock any more (a safe
+// preemption point after every outermost critical section, wherever a change
+// may have moved it) and can look at protected state just before a release.
+type verifRWMutex struct{ mu sync.RWMutex }
+
+func (m *verifRWMutex) Lock()    { m.mu.Lock(); verifMutexLocked() }
+func (m *verifRWMutex) RLock()   { m.mu.RLock(); verifMutexLocked() }
+func (m *verifRWMutex) Unlock()  { verifMutexUnlocking(1); m.mu.Unlock(); verifMutexUnlocked() }
+func (m *verifRWMutex) RUnlock() { verifMutexUnlocking(1); m.mu.RUnlock(); verifMutexUnlocked() }
+
+type verifMutex struct{ mu sync.Mutex }
+
+func (m *verifMutex) Lock()   { m.mu.Lock(); verifMutexLocked() }
+func (m *verifMutex) Unlock() { verifMutexUnlocking(2); m.mu.Unlock(); verifMutexUnlocked() }
+
+//go:norace
+func verifMutexLocked() {
+	if h := verifH; h != nil && h.MutexLocked != nil {
+		h.MutexLocked()
+	}
+}
+
+//go:norace
+func verifMutexUnlocking(kind int) {
+	if h := verifH; h != nil && h.MutexUnlocking != nil {
+		h.MutexUnlocking(kind)
+	}
+}
+
+//go:norace
+func verifMutexUnlocked() {
+	if h := verifH; h != nil && h.MutexUnlocked != nil {
+		h.MutexUnlocked()
+	}
 }
 
 var verifH *VerifHooks
